@@ -115,7 +115,8 @@ type world struct {
 	nextID   int
 	pending  int // plain: buffered messages still to hand over after Close
 	aborted  bool
-	closeRet int // len(events) when Close returned, -1 before
+	closeRet int    // len(events) when Close returned, -1 before
+	paniced  string // first call of the code under test that panicked (notePanic)
 	// errUsed: "site:kind" of every scripted failure that was actually
 	// returned with a non-default error kind (labels only).
 	errUsed map[string]bool
